@@ -85,6 +85,7 @@ func props() map[string]Prop {
 			Units: []Unit{
 				{Name: "seq", Pkg: "internal/upload", Harness: "internal_upload", Run: "^TestVerifUploadSeq$", Instrument: uploadInstr, Timeout: 30 * time.Minute},
 				{Name: "conc", Pkg: "internal/upload", Harness: "internal_upload", Run: "^TestVerifUploadConc$", Instrument: uploadInstr, Timeout: 40 * time.Minute},
+				{Name: "race", Pkg: "internal/upload", Harness: "internal_upload", Run: "^TestVerifUploadRace$", Instrument: uploadInstr, Race: true, Timeout: 40 * time.Minute},
 			},
 			Assume: []string{"counter names are valid UTF-8 and sums stay below 2^62 (reports carry int64 in JSON)", "counter files are produced by the independent writer in /verif/ref with the documented metadata"},
 		},
@@ -108,6 +109,7 @@ func props() map[string]Prop {
 			ID: "C08", Level: "fault_enumeration",
 			Units: []Unit{
 				{Name: "conc", Pkg: "internal/upload", Harness: "internal_upload", Run: "^TestVerifUploadConc$", Instrument: uploadInstr, Timeout: 40 * time.Minute},
+				{Name: "race", Pkg: "internal/upload", Harness: "internal_upload", Run: "^TestVerifUploadRace$", Instrument: uploadInstr, Race: true, Timeout: 40 * time.Minute},
 			},
 			Assume: []string{
 				"uploaders are virtual threads in one process sharing the directory; a kill parks the thread for ever at a scheduling point (no deferred cleanup runs), which equals kill -9 for code whose shared state is the file system",
